@@ -13,7 +13,7 @@ def describe(c):
 
 @register("C35")
 def check(ctx):
-    core.build_harness(ctx)
+    core.build_harness(ctx, "vh")
     ctx.level = "model_checking"
     ctx.assumptions += [
         "documents are described by the quantities the guards read; nodes of one document share a length; "
